@@ -17,6 +17,28 @@ mpmath.mp.dps = 60
 
 HERE = os.path.dirname(os.path.abspath(__file__))
 DEFS_PATH = os.path.join(os.path.dirname(HERE), "data", "C02_definitions.json")
+VOCAB_PATH = os.path.join(os.path.dirname(HERE), "data", "C02_vocabulary.json")
+# names users give their own symbols (single letters, cosmology / simulation-code style names); TLC decides which of them
+# (and which names of the tree, and which plural / upper-case variants of the tree's alternative names) are outside the
+# frozen vocabulary and generates the cases (DefsReg.tla: UDemanded)
+USER_WORDS = ["foo", "Foo", "FOO", "foos", "code_length", "code_mass", "code_time", "unitary", "pccm", "kpccm", "Mpccm", "mcm", "cmcm",
+              "kmcm", "aucm", "H0", "h70", "littleh", "hh", "hubble", "x1", "u_", "my_unit", "au_", "deg_", "delta", "percent_", "sqrt_"]
+
+
+def user_name_candidates(ex):
+    import string
+
+    out = [{"name": c, "cls": "core"} for c in string.ascii_letters] + [{"name": w, "cls": "core"} for w in USER_WORDS]
+    seen = {o["name"] for o in out}
+    for key, alts in ex["default_name_alternatives"].items():
+        for w in [key] + list(alts):
+            if not re.fullmatch(r"[A-Za-z_][A-Za-z0-9_]*", w):
+                continue
+            for v in (w + "s", w.upper(), w.lower(), w.capitalize()):
+                if v != w and v not in seen:
+                    seen.add(v)
+                    out.append({"name": v, "cls": "variant"})
+    return out
 
 BASE_DIM_ORDER = ["(mass)", "(length)", "(time)", "(temperature)", "(angle)", "(current_mks)", "1", "(luminous_intensity)", "(logarithmic)"]
 CLIP = 1000000
@@ -150,6 +172,8 @@ class Defs:
             "table": table,
             "names": names,
             "keys": keys,
+            "vocab": json.load(open(VOCAB_PATH, encoding="utf-8"))["names"],
+            "uextra": user_name_candidates(ex),
             "prefixes": prefixes,
             "libprefixes": libpfx,
             "systems": systems,
